@@ -72,6 +72,25 @@ Iter(c, d, i, hi, st) ==
 
 LoopIdents(c) == {c.loops[k][1] : k \in DOMAIN c.loops}
 
+\* Tagged user-function call inside the right-hand side of an assignment (fault injection, C11): the tag of a
+\* call <func>f(.., k=constant) that sits at the top of the expression or directly in a top-level sum/product,
+\* where it is evaluated exactly once per execution of the assignment; 0 if there is none.
+RECURSIVE TagOf(_), TagOfSeq(_, _)
+TagOf(e) ==
+    CASE e[1] = "call" -> IF e[2] = <<"v", "<func>f">> /\ (\E k \in DOMAIN e[4] : e[4][k][1] = "k" /\ e[4][k][2][1] = "c")
+                          THEN e[4][CHOOSE k \in DOMAIN e[4] : e[4][k][1] = "k"][2][2] ELSE 0
+      [] e[1] \in {"sum", "prod"} -> TagOfSeq(e[2], 1)
+      [] OTHER -> 0
+TagOfSeq(s, k) == IF k > Len(s) THEN 0 ELSE IF TagOf(s[k]) # 0 THEN TagOf(s[k]) ELSE TagOfSeq(s, k + 1)
+\* how often the assignment is executed (its bounds do not depend on what it assigns)
+RECURSIVE TripCount(_, _, _), TripSum(_, _, _, _, _)
+TripCount(c, d, st) ==
+    IF d > Len(c.loops) THEN 1
+    ELSE LET lo == Eval(c.loops[d][2], st)  hi == Eval(c.loops[d][3], st) IN
+           IF IsI(lo) /\ IsI(hi) /\ hi[2] - lo[2] <= 8 THEN TripSum(c, d, lo[2], hi[2], st) ELSE 0
+TripSum(c, d, i, hi, st) ==
+    IF i >= hi THEN 0 ELSE TripCount(c, d + 1, Put(st, c.loops[d][1], I(i))) + TripSum(c, d, i + 1, hi, st)
+
 \* Accumulator of a phase body: st, evs, stack (values of the enclosing block conditions),
 \* lastIf (<<>> or <<value>> of the flag of the if_ block closed last), out, target, kind, calls (per-site
 \* counters of user-function calls, for fault injection)
@@ -128,8 +147,19 @@ Track(acc, st2, names, reads) ==
 \* a statement inside active blocks
 ExecStatement(c, acc) ==
     CASE c.op = "assign" ->
-            LET r == LoopExec(c, 1, acc.st) IN
-              IF r.ok THEN Track(acc, Del(r.s, LoopIdents(c)), {c.lhs}, AssignReads(c)) ELSE Halt(acc, "oof")
+            LET r == LoopExec(c, 1, acc.st)
+                tag == TagOf(c.rhs)
+                n0 == IF tag \in DOMAIN acc.cc THEN acc.cc[tag] ELSE 0
+                n1 == n0 + TripCount(c, 1, acc.st)
+                acc1 == IF tag = 0 THEN acc ELSE [acc EXCEPT !.cc = [x \in DOMAIN @ \cup {tag} |-> IF x = tag THEN n1 ELSE @[x]]]
+            IN
+              IF ~r.ok THEN Halt(acc, "oof")
+              ELSE IF tag # 0 /\ ~acc.hit /\ Fault[1] = tag /\ n0 < Fault[2] /\ Fault[2] <= n1
+                   THEN \* one of the calls of this assignment raises (possibly after some iterations): its target is
+                        \* uncertain; a persistent array written element by element is outside the fragment
+                        IF IsPersistent(c.lhs) THEN Halt(acc, "oof")
+                        ELSE [acc1 EXCEPT !.hit = TRUE, !.st = Del(r.s, LoopIdents(c)), !.taint = @ \cup {c.lhs}]
+                   ELSE Track(acc1, Del(r.s, LoopIdents(c)), {c.lhs}, AssignReads(c))
       [] c.op = "acall" ->
             LET args == EvalSeq(c.args, acc.st, 1)  kw == EvalKw(c.kw, acc.st, 1)
                 tag  == IF c.f = "<func>f" /\ IsI(KwGet(kw, "k", I(0))) THEN KwGet(kw, "k", I(0))[2] ELSE 0
